@@ -83,3 +83,26 @@ package gnmi
 //@   ensures {C13} refused-update-records-nothing: err != nil ==> domOf(target.updates) == old(domOf(target.updates)) && checkFailures > old(checkFailures)
 //@   ensures {C13} accepted-update-passed-checks: err == nil ==> checkFailures == old(checkFailures)
 //@   ensures {C13} update-touches-no-delete: len(target.removes) == old(len(target.removes)) && arrOf(target.removes) == old(arrOf(target.removes))
+
+//@ spec isSubscribeMsg(r *gnmi.SubscribeRequest) bool = isType(r.Request, "*gnmi.SubscribeRequest_Subscribe") && asType(r.Request, "*gnmi.SubscribeRequest_Subscribe") != nil && asType(r.Request, "*gnmi.SubscribeRequest_Subscribe").Subscribe != nil
+//@ spec isPollMsg(r *gnmi.SubscribeRequest) bool = isType(r.Request, "*gnmi.SubscribeRequest_Poll") && asType(r.Request, "*gnmi.SubscribeRequest_Poll") != nil && asType(r.Request, "*gnmi.SubscribeRequest_Poll").Poll != nil
+// messages decoded from the wire: a set oneof carries a non-nil payload
+//@ spec wireValidSub(r *gnmi.SubscribeRequest) bool = r != nil && (isType(r.Request, "*gnmi.SubscribeRequest_Subscribe") ==> isSubscribeMsg(r)) && (isType(r.Request, "*gnmi.SubscribeRequest_Poll") ==> isPollMsg(r))
+
+//@ func splitSubscribeRequest(sctx, req) (err)
+//@   trusted
+//@   modifies sctx.treqs
+//@   ensures sctx.treqs != nil && fresh(sctx.treqs)
+
+//@ func (*Server).processSubscribeRequest(s, ctx, sctx, req) (err)
+//@   props C19
+//@   requires s != nil && sctx != nil && wireValidSub(req) && (forall t string :: !targetLookups[t])
+//@   ensures {C19} duplicate-subscription-refused: isSubscribeMsg(req) && old(sctx.req) != nil ==> err != nil && sctx.req == old(sctx.req) && sctx.treqs == old(sctx.treqs) && targetLookupCount == old(targetLookupCount) && sbSubscribeCalls == old(sbSubscribeCalls) && pollCalls == old(pollCalls)
+//@   ensures {C19} poll-before-subscribe-refused: !isSubscribeMsg(req) && isPollMsg(req) && old(sctx.req) == nil ==> err != nil && targetLookupCount == old(targetLookupCount) && pollCalls == old(pollCalls)
+//@   ensures {C19} unknown-message-refused: !isSubscribeMsg(req) && !isPollMsg(req) ==> err != nil && targetLookupCount == old(targetLookupCount) && sbSubscribeCalls == old(sbSubscribeCalls) && pollCalls == old(pollCalls)
+//@   ensures {C19} subscription-remembered: isSubscribeMsg(req) && old(sctx.req) == nil ==> sctx.req == req
+//@   ensures {C19} poll-reaches-every-subscribed-target: err == nil && !isSubscribeMsg(req) && isPollMsg(req) ==> (forall t string :: (t in sctx.treqs) ==> targetLookups[t]) && sbSubscribeCalls == old(sbSubscribeCalls) && sctx.treqs == old(sctx.treqs) && sctx.req == old(sctx.req)
+//@   ensures {C19} nothing-reaches-unnamed-targets: forall t string :: targetLookups[t] ==> (t in sctx.treqs)
+//@   ensures {C19} subscribe-reaches-every-named-target: err == nil && isSubscribeMsg(req) ==> (forall t string :: (t in sctx.treqs) ==> targetLookups[t]) && pollCalls == old(pollCalls)
+//@   loop 1 invariant sctx.treqs != nil && pollCalls == old(pollCalls) && (forall t string :: visited(1)[t] ==> targetLookups[t]) && (forall t string :: targetLookups[t] ==> (t in sctx.treqs))
+//@   loop 2 invariant sctx.treqs == old(sctx.treqs) && sctx.req == old(sctx.req) && sbSubscribeCalls == old(sbSubscribeCalls) && (forall t string :: visited(2)[t] ==> targetLookups[t]) && (forall t string :: targetLookups[t] ==> (t in sctx.treqs))
